@@ -12,6 +12,7 @@ import (
 	"mellium.im/xmlstream"
 	"mellium.im/xmpp"
 	"mellium.im/xmpp/mux"
+	"mellium.im/xmpp/jid"
 	"mellium.im/xmpp/stanza"
 	"mellium.im/xmpp/stream"
 
@@ -51,11 +52,11 @@ func (r req) doc() string {
 var kinds = []string{"iq", "message", "presence"}
 var types = []string{"get", "set", "result", "error", "-", "", "bogus"}
 var ids = []string{"a", ""}
-var froms = []string{"", "juliet@example.com/balcony", "me@example.net", "@@bad"}
-var tos = []string{"", "me@example.net/res"}
+var froms = []string{"", "juliet@example.com/balcony", "me@example.net", "@@bad", "Juliet@Example.COM/balcony"} // the last one: a spelling that is not the canonical form of the address
+var tos = []string{"", "me@example.net/res", "example.net", "someone@else.example/x"} // the last two: our domain, and an address that is not ours (a gateway, a misrouted request): any to
 var payloads = []string{"", `<q xmlns='urn:q'/>`, `<iq xmlns='urn:q' id='a' type='result'/>`, `text`, `<other xmlns='urn:other'><q xmlns='urn:q'/></other>`}
 
-const nPrograms = 19
+const nPrograms = 20
 
 // program writes to the encoder per the chosen behaviour; returns how many
 // matching replies (top-level iq, type result|error, request id) it wrote and
@@ -135,6 +136,20 @@ func program(p int, t xmlstream.TokenReadEncoder, r req) (matching int, herr err
 		t.EncodeToken(w)
 		t.EncodeToken(w.End())
 		iq("-", r.id)
+	}
+	if p == 19 {
+		// the reply is addressed as the library's own handlers address theirs:
+		// to the parsed (canonical) form of the sender's address
+		start := xml.StartElement{Name: xml.Name{Local: "iq"}, Attr: []xml.Attr{{Name: xml.Name{Local: "type"}, Value: "result"}}}
+		if r.id != "" {
+			start.Attr = append(start.Attr, xml.Attr{Name: xml.Name{Local: "id"}, Value: r.id})
+		}
+		if j, err := jid.Parse(r.from); err == nil && r.from != "" {
+			start.Attr = append(start.Attr, xml.Attr{Name: xml.Name{Local: "to"}, Value: j.String()})
+		}
+		t.EncodeToken(start)
+		t.EncodeToken(start.End())
+		matching = 1
 	}
 	if p == 18 {
 		// writes nothing and fails with a stanza-level error value
@@ -323,7 +338,13 @@ func body(c *nd.Ctx) nd.Result {
 	case replies != matching+auto:
 		return fail("auto-reply:reply-count", "%d replies with the request id on the wire, handler wrote %d, automatic %d: %s", replies, matching, auto, out)
 	}
-	if matching == 0 && r.from != "" && r.from != "me@example.net" && autoTo != r.from {
+	sameAddr := func(a, b string) bool {
+		// the canonical form of an address names the same entity
+		ja, ea := jid.Parse(a)
+		jb, eb := jid.Parse(b)
+		return a == b || (ea == nil && eb == nil && ja.Equal(jb))
+	}
+	if matching == 0 && r.from != "" && r.from != "me@example.net" && !sameAddr(autoTo, r.from) {
 		return fail("auto-reply:not-addressed-to-sender", "automatic reply to=%q, request from=%q: %s", autoTo, r.from, out)
 	}
 	return res
